@@ -91,7 +91,7 @@ func genC16(r *Rng, tier string) []Case {
 	rd := r.Fork("dn")
 	types := []string{"CN", "OU", "DC", "DC", "DC", "O", "L", "dc", "DCX", "D", "C", "UID"}
 	valAlpha := []byte("abcDC=,\\+#;\"<> .xyz0-")
-	wideAlpha := []byte("aöıü%漢DC=,\\ .") // bytes of multi-byte characters (a slice of runes is not a slice of bytes), format verbs
+	wideAlpha := []byte("aöıü%漢ſɐ\u212a\u0130DC=,\\ .") // bytes of multi-byte characters (a slice of runes is not a slice of bytes), format verbs
 	dnsAlpha := []byte("abcdefxyzDCdcN0123-_") // labels may begin with the letters of an attribute type ("DC=dc01", "DC=CDC")
 	for i := 0; i < n; i++ {
 		k := rd.Intn(7)
